@@ -60,6 +60,7 @@ import (
 	"fmt"
 	"math"
 	"math/big"
+	"runtime"
 	"strconv"
 	"strings"
 	"sync"
@@ -1030,6 +1031,10 @@ func c32checkSqrt(c *c32rep, op *c32op, mk func() c32case, args []c32v, executed
 func TestVerif_C32(t *testing.T) {
 	r := ve.NewRun("C32", "exploration")
 	c := &c32rep{r: r}
+	// every evaluation allocates a fresh ~10 KB EvalContext while the live heap is tiny: an untouched
+	// ballast makes the collector run once per ~256 MB of garbage
+	ballast := make([]byte, 256<<20)
+	defer runtime.KeepAlive(ballast)
 	r.Assume("reference semantics are the opcode texts of TEAL_opcodes_v13.md/langspec_v13.json (quoted in the harness) evaluated over the integers with math/big")
 	r.Assume("byte-math results must use the shortest big-endian encoding (AVM specification, Byte Array Arithmetic); bigint operands are limited to 64 bytes (langspec NamedTypes)")
 	r.Assume("setbit with C > 1 and setbyte with C > 255 are required to fail (the spec defines C as '0 or 1' / 'between 0..255')")
